@@ -140,6 +140,10 @@ def complex_current_source(id: str, nodes: tuple[str, str], I: complex, Y: compl
         )
 
 def periodic_current_source(id: str, nodes: tuple[str, str], wavetype: str, I: float, w: float, phi: float, G: float = 0) -> Component:
+    if G < 0:
+        raise ValueError('G must be greater than zero.')
+    if w < 0:
+        raise ValueError('w must be greater than zero.')
     return Component(
         type='periodic_current_source',
         id=id,
